@@ -94,4 +94,156 @@ def answer (ws : List String) : Option String :=
   | "hs" :: _ => some "bad-op"
   | _ => none
 
+/-! ## the same under non-default configurations and arbitrary SUPPORTED contents (op `hsc`)
+
+conn.go Conn.init (`AuthProvider` / `Authenticator`), startupCoordinator.startup (what it reads of the SUPPORTED
+multimap: `supported["COMPRESSION"]` only if a compressor is configured; CQL_VERSION of STARTUP is the configured
+string, whatever the node offers), control.go discoverProtocol / parseProtocolFromError (ProtoVersion 0).
+The configuration is a PARAMETER of the model. The peer speaks protocol 4 only. -/
+
+structure SetupCfg where
+  cqlSet : Bool          -- ClusterConfig.CQLVersion is "3.0.0" (false: "")
+  discover : Bool        -- ProtoVersion 0: discoverProtocol first
+  compressor : Bool      -- Compressor = SnappyCompressor{}
+  auth : Nat             -- 0 none, 1 Authenticator, 2 AuthProvider (both PasswordAuthenticator), ≥ 3 AuthProvider returning an error
+  noLookup : Bool        -- DisableInitialHostLookup
+  deriving DecidableEq, Repr
+
+/-- the strings a SUPPORTED option can list -/
+inductive Tok | v300 | v345 | snappy | lz4 | foo | empty
+  deriving DecidableEq, Repr
+
+inductive Key | cql | comp | proto | other
+  deriving DecidableEq, Repr
+
+/-- a [string multimap] in wire order (a key may occur more than once) -/
+abbrev Supported := List (Key × List Tok)
+
+/-- framer.readStringMultiMap: `m[k] = v` entry by entry — the LAST occurrence of a key wins -/
+def lookup (k : Key) : Supported → Option (List Tok)
+  | [] => none
+  | (k', v) :: rest =>
+    match lookup k rest with
+    | some v' => some v'
+    | none => if k' = k then some v else none
+
+/-- how STARTUP's CQL_VERSION is chosen: the configured string (conn.go startup), or — a variant — the first
+    version the node offers when none is configured (`versions[0]`) -/
+inductive Pick | configured | firstOffered
+  deriving DecidableEq, Repr
+
+/-- CQL_VERSION of the STARTUP body; `none` = index out of range on the set-up goroutine -/
+def cqlVersion (p : Pick) (cfg : SetupCfg) (sup : Supported) : Option String :=
+  if cfg.cqlSet then some "3.0.0" else
+  match p with
+  | .configured => some "~"
+  | .firstOffered =>
+    match lookup .cql sup with
+    | none => some "~"
+    | some [] => none
+    | some (t :: _) => some (match t with
+        | .v300 => "3.0.0" | .v345 => "3.4.5" | .snappy => "snappy" | .lz4 => "lz4" | .foo => "foo" | .empty => "~")
+
+/-- COMPRESSION of the STARTUP body: the compressor's name if the node lists it -/
+def compression (cfg : SetupCfg) (sup : Supported) : String :=
+  if cfg.compressor then
+    match lookup .comp sup with
+    | some l => if l.contains .snappy then "snappy" else "none"
+    | none => "none"
+  else "none"
+
+/-- what the connection dialled by discoverProtocol is told -/
+inductive Disc
+  | normal | errGreatest (n : Option Nat) | errOther | negStream | readyToOptions
+  deriving DecidableEq, Repr
+
+/-- discoverProtocol + parseProtocolFromError: the protocol version the session goes on with (`none`: NewSession
+    fails with "unable to discover protocol version") -/
+def discovered : Disc → Option Nat
+  | .normal => some 4
+  | .errGreatest (some n) => if n > 0 then some n else none     -- regexp match, strconv.Atoi
+  | .errGreatest none => none                                   -- Atoi fails (out of range)
+  | .errOther => none
+  | .negStream => some 4                                        -- protocolError: the version of the frame received
+  | .readyToOptions => none
+
+def authCfgOf (cfg : SetupCfg) : AuthCfg := if cfg.auth = 0 then ⟨false, false, none⟩ else passwordAuth
+
+inductive ResCfg
+  | dead                                   -- the process died on a driver goroutine
+  | done (st : St) (reqs : List String) (cql comp : String)
+  deriving DecidableEq, Repr
+
+/-- a whole NewSession as far as the first pool connection: `script` answers that connection's requests -/
+def runCfg (p : Pick) (cfg : SetupCfg) (sup : Supported) (script : List FrameKind) (d : Disc) : ResCfg :=
+  if cfg.auth ≥ 3 then .done .failed [] "-" "-"          -- Conn.init: AuthProvider's error, before any request
+  else if cfg.discover && discovered d ≠ some 4 then
+    -- no version, or one this peer does not speak ("unexpected protocol version in response")
+    .done .failed [] "-" "-"
+  else
+    -- every connection's STARTUP body is built the same way; the control connection comes first
+    match cqlVersion p cfg sup with
+    | none => .dead
+    | some v =>
+      let r := run (authCfgOf cfg) false script
+      if r.1.isDead then .dead
+      else if r.2.contains "S" then .done r.1 r.2 v (compression cfg sup)
+      else .done r.1 r.2 "-" "-"
+
+def ResCfg.isDead : ResCfg → Bool
+  | .dead => true
+  | _ => false
+
+def ResCfg.str : ResCfg → String
+  | .dead => "crash:startupCoordinator.startup:index"
+  | .done st reqs v c => st.str ++ ":" ++ String.join reqs ++ ":cql=" ++ v ++ ":comp=" ++ c
+
+def parseTok : Char → Option Tok
+  | '3' => some .v300 | '4' => some .v345 | 's' => some .snappy | 'z' => some .lz4 | 'f' => some .foo
+  | 'e' => some .empty | _ => none
+
+def parseKey : Char → Option Key
+  | 'V' => some .cql | 'C' => some .comp | 'P' => some .proto | 'X' => some .other | _ => none
+
+def parseEntry (w : String) : Option (Key × List Tok) :=
+  match w.toList with
+  | k :: '=' :: rest =>
+    match parseKey k with
+    | none => none
+    | some k =>
+      if rest.isEmpty then some (k, [])
+      else ((String.ofList rest).splitOn "+").mapM (fun (t : String) => match t.toList with | [c] => parseTok c | _ => none)
+        |>.map (fun l => (k, l))
+  | _ => none
+
+def parseSupported (w : String) : Option Supported :=
+  if w = "-" then some [] else (w.splitOn ";").mapM parseEntry
+
+def parseSetupCfg (w : String) : Option SetupCfg :=
+  match w.toList with
+  | [v, p, c, a, l] =>
+    let bit : Char → Option Bool := fun ch => if ch = '0' then some false else if ch = '1' then some true else none
+    match bit v, (if p = '0' then some true else if p = '4' then some false else none), bit c,
+        (if a.isDigit ∧ a.toNat - '0'.toNat ≤ 3 then some (a.toNat - '0'.toNat) else none), bit l with
+    | some v, some p, some c, some a, some l => some ⟨v, p, c, a, l⟩
+    | _, _, _, _, _ => none
+  | _ => none
+
+def parseDisc : String → Option Disc
+  | "-" => some .normal | "e4" => some (.errGreatest (some 4)) | "e3" => some (.errGreatest (some 3))
+  | "e0" => some (.errGreatest (some 0)) | "e77" => some (.errGreatest (some 77)) | "ebig" => some (.errGreatest none)
+  | "eo" => some .errOther | "neg" => some .negStream | "rdy" => some .readyToOptions
+  | _ => none
+
+def answerCfg (ws : List String) : Option String :=
+  match ws with
+  | ["hsc", c, su, sc, d] =>
+    some (match parseSetupCfg c, parseSupported su,
+        (if sc = "-" then some [] else (sc.splitOn ",").mapM FrameKind.ofName), parseDisc d with
+      | some cfg, some sup, some script, some d =>
+        if !cfg.discover && d ≠ .normal then "bad-op" else (runCfg .configured cfg sup script d).str
+      | _, _, _, _ => "bad-op")
+  | "hsc" :: _ => some "bad-op"
+  | _ => none
+
 end ConnSetup
